@@ -160,7 +160,7 @@ def boundary_values(rng, width, cur, filesize):
 def mutate_field(rng, data, fields):
     off, w, lab = rng.choice(fields)
     cur = int.from_bytes(data[off:off + w], 'little')
-    v = rng.choice(boundary_values(rng, w, cur, len(data)))
+    v = rng.choice(boundary_values(rng, w, cur, len(data))) % (1 << (8 * w))
     return fix_crc(data[:off] + v.to_bytes(w, 'little') + data[off + w:]), '%s:%d->%d' % (lab, cur, v)
 
 
